@@ -125,6 +125,9 @@ class PermutingPool:
         self.seed = int(seed)
         self.calls = 0
 
+    def __reduce__(self):  # like multiprocessing.Pool: a live pool cannot be pickled
+        raise NotImplementedError("pool objects cannot be passed between processes or pickled")
+
     def map(self, f, xs):
         xs = list(xs)
         self.calls += 1
